@@ -83,6 +83,8 @@ def check_config(ctx, rep, cfg):
     for f in cands:
         if f.path.startswith("classic::") or not returns_result(f) or f.kind == "closure":
             continue
+        if f.vis != "pub":
+            continue    # a private helper's buffer belongs to its (checked) public caller, not to the user
         outs = [cm.param_name(f, p) for p in cm.params_of(f)
                 if f.locals[p]["t"].startswith("&mut ") and cm.param_name(f, p) != "self"]
         rep.ob("OBJ-OUT", f.path + tag, not outs,
